@@ -11,6 +11,8 @@ ENGINES = [
          kind_free_text="rapidcheck-generated scenarios against reproc++ linked to a recording mock of the C API"),
     dict(name="winstub", path="src/winstub + src/props/C18.cpp + src/fuzz/C18_fuzz.cpp", serves_properties=["C18"],
          kind_free_text="Windows sources compiled on stub headers; exhaustive small-scope sweep + rapidcheck + libFuzzer with a round-trip oracle"),
+    dict(name="dry", path="src/vsys/vsys.c (DRY mode) + src/model/options_model.hpp + src/props/C13.cpp", serves_properties=["C13"],
+         kind_free_text="real reproc_start against a fake kernel in the shim; exhaustive enumeration of the option rule cube against an executable model of reproc.h"),
     dict(name="real", path="src/vsys + src/puppet.c + src/common/harness.cpp", serves_properties=["C03", "C04", "C05", "C06", "C10", "C11", "C12"],
          kind_free_text="real clock, real kernel: unmodified library objects with libc boundary renamed to the vsys shim (ledger, fault injection), scripted child (puppet) that reports its entry state"),
 ]
@@ -104,5 +106,33 @@ prop(
         "PATH-searched programs: PATH is among the inherited parent entries and not overridden by extras (which PATH counts is undocumented)",
         "beyond PATH_MAX only a clean outcome (success, or a negative return, no memory error, ledger clean) is required",
         "total argv+env kept below ~600 KB (ARG_MAX), single strings below 128 KiB (MAX_ARG_STRLEN)",
+    ],
+)
+
+prop(
+    "C13",
+    title="Conflicting or unsatisfiable options are rejected up front, with no side effect",
+    level="exploration",
+    engine="dry",
+    campaigns=[dict(bin="C13", sweep=True, random=dict(quick=100000, thorough=2000000))],
+    level_text=("The real reproc_start is run against a fake kernel inside the shim for every cell of the rule cube "
+                "{11 type values x handle/file/path set/unset}^3 x 16 shorthand combinations (thorough: all 10.9 M cells; quick: a rotating "
+                "1/8 stride plus all one-stream planes), for every start-up-input and fork/argv form on a stride of the cube, and - in both tiers - "
+                "for every combination of locally consistent stream settings x shorthands x input/fork forms (where all valid cells live); each result "
+                "is compared with an independent transcription of the rules in reproc.h. Exhaustive over the cube in the thorough tier."),
+    level_note=("Trusts the transcription of reproc.h in src/model/options_model.hpp (cells the header leaves open are 'unspecified' and accept both outcomes) "
+                "and the DRY fake kernel; real descriptor identities for valid combinations are checked by C10."),
+    technique="exhaustive enumeration of the option rule table + rapidcheck sampling, differential against an executable model of the documented rules, side effects observed at the libc boundary",
+    rule=("Cells: per stream type in {0..7, 8, -1, 1000} x {handle, file, path} set/unset; x parent, discard, file-shorthand, path-shorthand; x input in "
+          "{none, data+size, data+0, NULL+size}; x (fork, argv) in {(0,valid),(0,NULL),(0,{NULL}),(1,NULL),(1,valid)}. Invalid by the model => REPROC_EINVAL and no pipe/open/fork/"
+          "fileno/allocation between entry and return; valid => not EINVAL, and pipes/null-device opens/path opens (with access mode)/FILE lookups/parent pipe ends exactly as "
+          "the effective redirects demand. Non-trivial: at least two independent rules involved (type set, field set, shorthand, input form, fork form). "
+          "Distinct: cell index (sweep cells are unique by construction; random cases are not counted)."),
+    essential=dict(quick=["sweep-valid-streams", "sweep-cube", "sweep-plane", "sweep-forms", "random", "model-valid", "model-invalid", "model-unspecified"]),
+    exhaustive=dict(quick=False, thorough=True),
+    exhaustive_scope="thorough: every cell of the redirect cube x shorthands (10 903 552 cells) with input/fork defaults; input and fork forms on a 1/16 stride",
+    assumptions=[
+        "cells the header leaves open are accepted either way: out-of-range type values; parent+discard when every stream is set explicitly; start-up input with an explicitly set stdin pipe",
+        "DRY engine: no real descriptors or processes; the child side of fork is not executed",
     ],
 )
